@@ -23,6 +23,10 @@ class Gen:
         self.labels = set()
         self.facts = []        # structural facts used by the classifier: ('in', n0, n1, m0, m1), ('starunpack', k0, k1)
         self.no_lambda = False
+        self.restricted = 0    # >0 while generating assignment/with/for/del targets: no lambdas with defaults, comprehensions,
+                               # generator expressions or walrus there (each crashes the compiler on this tree: C43-type defects)
+        self.no_walrus = 0
+        self.no_star_display = 0
 
     # ------------------------------------------------------------------ helpers
     def key(self):
@@ -69,7 +73,7 @@ class Gen:
         if r < .88:
             self.lab('builtin-call')
             return 'len(%s)' % self.obj()
-        if r < .94:
+        if r < .94 and not self.restricted and not self.no_walrus:
             self.lab('walrus')
             return '(w%d := %s)' % (self.rng.randint(0, 1), self.e_int(d - 1))
         self.lab('builtin-call')
@@ -208,7 +212,8 @@ class Gen:
             k = self.rng.random()
             n = self.rng.randint(1, 3)
             if k < .3:
-                items = [('*' + self.e_seq(d - 1)) if self.rng.random() < .25 else self.e_any(d - 1) for _ in range(n)]
+                items = [('*' + self.e_seq(d - 1)) if self.rng.random() < .25 and not self.no_star_display else self.e_any(d - 1)
+                         for _ in range(n)]
                 return '[%s]' % ', '.join(items)
             if k < .5:
                 return '(%s,)' % ', '.join(self.e_any(d - 1) for _ in range(n))
@@ -223,6 +228,8 @@ class Gen:
                 else:
                     items.append('%s: %s' % (self.e_int(d - 1), self.e_any(d - 1)))
             return '{%s}' % ', '.join(items)
+        if r < .79 and self.restricted:
+            return self.e_objexpr(d - 1)
         if r < .79:
             self.lab('comprehension')
             k = self.rng.random()
@@ -286,8 +293,8 @@ class Gen:
             if k < .85:
                 return '%s.setdefault(%s, %s)' % (self.v('{}'), self.e_int(0), self.e_any(d - 1))
             return '%s.replace(%s, %s, %s)' % (self.v("'abcabc'"), self.v("'b'"), self.v("'X'"), self.e_int(0))
-        if self.no_lambda:
-            # a lambda with defaults inside an augmented-assignment target crashes the compiler (C43-type defect)
+        if self.no_lambda or self.restricted:
+            # a lambda with defaults inside an augmented-assignment / with target crashes the compiler (C43-type defect)
             return self.v('3')
         self.lab('lambda-defaults')
         return '(lambda x=%s, *, y=%s: (x, y))(%s)' % (self.e_any(d - 1), self.e_any(d - 1),
@@ -295,6 +302,13 @@ class Gen:
 
     # ------------------------------------------------------------------ targets
     def target(self, d, allow_name=True):
+        self.restricted += 1
+        try:
+            return self._target(d, allow_name)
+        finally:
+            self.restricted -= 1
+
+    def _target(self, d, allow_name=True):
         r = self.rng.random()
         if allow_name and r < .2:
             return self.pick(['r', 't1', 't2'])
@@ -364,7 +378,10 @@ class Gen:
                             ind + 'r = (t1, t2)']
                 return [ind + 'a[%s], b.x, t1 = b[%s], a.y, %s' % (self.e_any(d - 1), self.e_any(d - 1), self.e_any(d - 1))]
             ts = self.target_list(d, n)
-            return [ind + '%s = %s' % (', '.join(ts), ', '.join(self.e_any(d - 1) for _ in range(n)))]
+            self.no_star_display += 1
+            rhs = ['E.seq(%d, 2)' % self.key() if t.startswith('(') else self.e_any(d - 1) for t in ts]
+            self.no_star_display -= 1
+            return [ind + '%s = %s' % (', '.join(ts), ', '.join(rhs))]
         if r < .66:
             self.lab('stmt-unpack')
             n = rng.randint(2, 3)
@@ -379,8 +396,11 @@ class Gen:
                 src = 'E.seq(%d, %d)' % (self.key(), nvals)
             elif k < .7:
                 # a display of the wrong length is rejected at compile time by the compiler (deliberately)
-                nvals = n if not star else max(nvals, n - 1)
-                src = '[%s]' % ', '.join(self.e_any(d - 1) for _ in range(nvals))
+                nvals = n if not star else max(nvals, n)
+                self.no_star_display += 1
+                src = '[%s]' % ', '.join('E.seq(%d, 2)' % self.key() if (not star and ts[j].startswith('(')) else self.e_any(d - 1)
+                                         for j in range(nvals))
+                self.no_star_display -= 1
             elif k < .85:
                 src = self.v('(%s,)' % ', '.join(str(i) for i in range(nvals)))
             else:
@@ -432,9 +452,12 @@ class Gen:
             return lines
         self.lab('stmt-class')
         n = self.key()
-        return [ind + 'class C%d(%s, metaclass=%s):' % (n, self.v('object'), self.v('type')),
-                ind + '    x = %s' % self.e_any(d - 1), ind + '    y = %s' % self.e_any(d - 1),
-                ind + 'r = (C%d.x, C%d.y)' % (n, n)]
+        self.no_walrus += 1          # a walrus inside a comprehension in a class body is a SyntaxError
+        lines = [ind + 'class C%d(%s, metaclass=%s):' % (n, self.v('object'), self.v('type')),
+                 ind + '    x = %s' % self.e_any(d - 1), ind + '    y = %s' % self.e_any(d - 1),
+                 ind + 'r = (C%d.x, C%d.y)' % (n, n)]
+        self.no_walrus -= 1
+        return lines
 
     # ------------------------------------------------------------------ typed (.pyx) statements
     def typed_stmt(self, ind='    '):
